@@ -289,7 +289,9 @@ impl Resolver<'_> {
             return vec![wildcard_field];
         }
 
-        for (name, decl) in module.names.iter().sorted_by_key(|(_, d)| d.order) {
+        // `names` is a hash map: break ties of `order` by name, so that the tuple (and with it
+        // the frame of the relation) does not depend on the iteration order
+        for (name, decl) in (module.names.iter()).sorted_by_key(|(n, d)| (d.order, n.as_str())) {
             res.push(match &decl.kind {
                 DeclKind::Module(submodule) => {
                     let prefix = [prefix.to_vec(), vec![name]].concat();
